@@ -63,6 +63,12 @@ func main() {
 				return true
 			})
 		}
+		// Scheduling points at the entry of the functions that stand between a registry lookup and the
+		// use of its result (lookups, unregistration, enqueueing, stop requests, clean-up): the windows
+		// "looked up, then the actor went away, then used" contain no atomic operation of their own.
+		if insertEntryYields(f) {
+			addImport(f, "github.com/anthdm/hollywood/verifshim/vsched")
+		}
 		out, err := os.Create(filepath.Join(outdir, filepath.Base(path)))
 		if err != nil {
 			fmt.Fprintln(os.Stderr, err)
@@ -74,4 +80,68 @@ func main() {
 		}
 		out.Close()
 	}
+}
+
+// yieldAt: receiver type -> method names ("*" = every method); "" = plain functions.
+var yieldAt = map[string]map[string]bool{
+	"Registry": {"*": true},
+	"process":  {"Send": true, "Invoke": true, "cleanup": true, "Start": true, "tryRestart": true},
+	"Engine":   {"sendPoisonPill": true, "SendLocal": true, "send": true, "BroadcastEvent": true},
+}
+
+func recvName(fd *ast.FuncDecl) string {
+	if fd.Recv == nil || len(fd.Recv.List) == 0 {
+		return ""
+	}
+	t := fd.Recv.List[0].Type
+	if st, ok := t.(*ast.StarExpr); ok {
+		t = st.X
+	}
+	if id, ok := t.(*ast.Ident); ok {
+		return id.Name
+	}
+	return ""
+}
+
+func insertEntryYields(f *ast.File) bool {
+	done := false
+	for _, d := range f.Decls {
+		fd, ok := d.(*ast.FuncDecl)
+		if !ok || fd.Body == nil {
+			continue
+		}
+		set := yieldAt[recvName(fd)]
+		if set == nil || !(set["*"] || set[fd.Name.Name]) {
+			continue
+		}
+		call := &ast.ExprStmt{X: &ast.CallExpr{
+			Fun:  &ast.SelectorExpr{X: ast.NewIdent("vsched"), Sel: ast.NewIdent("Yield")},
+			Args: []ast.Expr{&ast.BasicLit{Kind: token.STRING, Value: strconv.Quote(recvName(fd) + "." + fd.Name.Name)}},
+		}}
+		fd.Body.List = append([]ast.Stmt{call}, fd.Body.List...)
+		done = true
+	}
+	return done
+}
+
+func addImport(f *ast.File, path string) {
+	for _, im := range f.Imports {
+		if p, _ := strconv.Unquote(im.Path.Value); p == path {
+			return
+		}
+	}
+	spec := &ast.ImportSpec{Path: &ast.BasicLit{Kind: token.STRING, Value: strconv.Quote(path)}}
+	for _, d := range f.Decls {
+		if gd, ok := d.(*ast.GenDecl); ok && gd.Tok == token.IMPORT {
+			gd.Specs = append(gd.Specs, spec)
+			if !gd.Lparen.IsValid() {
+				gd.Lparen = gd.Pos()
+				gd.Rparen = gd.End()
+			}
+			f.Imports = append(f.Imports, spec)
+			return
+		}
+	}
+	f.Decls = append([]ast.Decl{&ast.GenDecl{Tok: token.IMPORT, Specs: []ast.Spec{spec}}}, f.Decls...)
+	f.Imports = append(f.Imports, spec)
 }
